@@ -7,8 +7,8 @@ import (
 	"google.golang.org/protobuf/types/known/timestamppb"
 
 	"github.com/drand/drand/v2/internal/util"
-	"github.com/drand/drand/v2/zzverif/emit"
 	pdkg "github.com/drand/drand/v2/protobuf/dkg"
+	"github.com/drand/drand/v2/zzverif/emit"
 )
 
 // interner names long byte strings once per case file (top-level Definitions) so that the case
